@@ -405,6 +405,108 @@ fn tcp_outcome(rt: &tokio::runtime::Runtime, stream: &[u8], r: &Run, expect: &(V
     })
 }
 
+/// Buffer bound on the socket path (real loopback TCP): a peer writes `lead` (nothing, or one
+/// maximal-size bitfield frame) followed by a flood of `haves` Have frames while the receiving
+/// side is busy for 300 ms; after every decoded frame the number of buffered, undecoded bytes is
+/// recorded. Every frame must be decoded in order and the buffer must never hold more than one
+/// maximal frame (4 + 65536 bytes). With `oversized` the flood is preceded by a frame header whose
+/// length is MAX_FRAME + 1: the connection must end with the error while no more than one frame is
+/// buffered. Returns (frames decoded, max buffered, verdict).
+pub fn flood_case(lead_max_frame: bool, oversized: bool, haves: usize) -> Result<(usize, usize, Option<(&'static str, String)>), String> {
+    use tokio::io::AsyncWriteExt;
+    let rt = tokio::runtime::Builder::new_current_thread().enable_all().build().map_err(|e| e.to_string())?;
+    let bound = 4 + refwire::MAX_FRAME;
+    rt.block_on(async move {
+        let listener = tokio::net::TcpListener::bind("127.0.0.1:0").await.map_err(|e| e.to_string())?;
+        let addr = listener.local_addr().map_err(|e| e.to_string())?;
+        let mut data: Vec<u8> = vec![];
+        let mut expect = 0usize;
+        if lead_max_frame {
+            // bitfield message of the largest admissible length: prefix 65536 = id + 65535 bytes
+            data.extend_from_slice(&(refwire::MAX_FRAME as u32).to_be_bytes());
+            data.push(5);
+            data.extend(std::iter::repeat(0u8).take(refwire::MAX_FRAME - 1));
+            expect += 1;
+        }
+        if oversized {
+            data.extend_from_slice(&((refwire::MAX_FRAME + 1) as u32).to_be_bytes());
+            data.push(5);
+        }
+        for i in 0..haves {
+            data.extend(refwire::encode(&Msg::Have(i as u32)));
+        }
+        if !oversized {
+            expect += haves;
+        }
+        let writer = tokio::spawn(async move {
+            let mut sock = tokio::net::TcpStream::connect(addr).await.expect("loopback connect");
+            sock.set_nodelay(true).ok();
+            let _ = sock.write_all(&data).await;
+            let _ = sock.flush().await;
+            // keep the connection open; the reader decides when it is done
+            tokio::time::sleep(std::time::Duration::from_secs(30)).await;
+            drop(sock);
+        });
+        let (server, _) = listener.accept().await.map_err(|e| e.to_string())?;
+        let mut conn = Connection::new("peer".to_string());
+        conn.with_socket(server);
+        let mut frames = 0usize;
+        let mut max_buffered = 0usize;
+        let mut next_have = 0u32;
+        let mut verdict: Option<(&'static str, String)> = None;
+        let mut first = true;
+        loop {
+            let got = match tokio::time::timeout(std::time::Duration::from_secs(5), conn.recv_frame()).await {
+                Ok(g) => g,
+                Err(_) => {
+                    if frames != expect || oversized {
+                        verdict = Some(("socket-path-stalls", format!("after {} of {} frames (max-size lead: {}, oversized header: {}) the receiving side waits although the peer has written everything; {} bytes buffered", frames, expect, lead_max_frame, oversized, conn.verif_buffer_len())));
+                    }
+                    break;
+                }
+            };
+            max_buffered = max_buffered.max(conn.verif_buffer_len());
+            match got {
+                Ok(Some(f)) => {
+                    frames += 1;
+                    let bytes = crate::c07::frame_bytes(&f);
+                    if bytes.len() == 9 && bytes[4] == 4 {
+                        let i = u32::from_be_bytes([bytes[5], bytes[6], bytes[7], bytes[8]]);
+                        if i != next_have {
+                            verdict = Some(("socket-path-decodes-differently", format!("flood of Have frames over loopback TCP: frame #{} decoded as Have {} instead of Have {}", frames, i, next_have)));
+                            break;
+                        }
+                        next_have += 1;
+                    }
+                    if first {
+                        // the client is busy for a moment: the kernel queues the flood meanwhile
+                        first = false;
+                        tokio::time::sleep(std::time::Duration::from_millis(300)).await;
+                    }
+                    if frames == expect && !oversized {
+                        break;
+                    }
+                }
+                Ok(None) => {
+                    verdict = Some(("socket-path-decodes-differently", format!("end of stream reported after {} of {} frames although the peer keeps the connection open", frames, expect)));
+                    break;
+                }
+                Err(e) => {
+                    if !oversized {
+                        verdict = Some(("socket-path-decodes-differently", format!("decodable flood refused after {} of {} frames: {:?}", frames, expect, e)));
+                    }
+                    break;
+                }
+            }
+        }
+        writer.abort();
+        if verdict.is_none() && max_buffered > bound {
+            verdict = Some(("buffers-more-than-one-frame", format!("socket path (max-size lead: {}, oversized header: {}, {} Have frames written at once, receiver busy for 300 ms): {} undecoded bytes were buffered at one time, one maximal frame is {} bytes", lead_max_frame, oversized, haves, max_buffered, bound)));
+        }
+        Ok((frames, max_buffered, verdict))
+    })
+}
+
 fn unseamed_part(ctx: &Ctx) -> (u64, u64) {
     let alpha = alphabet();
     let mut cases: Vec<(Vec<usize>, Run)> = vec![];
@@ -463,7 +565,20 @@ fn unseamed_part(ctx: &Ctx) -> (u64, u64) {
             ctx.violation("socket-path-decodes-differently", r.clone(), json!({"kind": "unseamed", "text": r}));
         }
     }
-    (cases.len() as u64, bad)
+    // buffer bound of the socket path under a flood
+    let mut extra = 0u64;
+    for (lead, over) in [(false, false), (false, true), (true, false)] {
+        extra += 1;
+        match flood_case(lead, over, 400_000) {
+            Ok((_, _, None)) => {}
+            Ok((_, _, Some((class, why)))) => {
+                bad += 1;
+                ctx.violation(class, why, json!({"kind": "flood", "lead_max_frame": lead, "oversized": over, "haves": 400_000}));
+            }
+            Err(e) => ctx.machinery_error(format!("flood run over loopback TCP could not be carried out: {}", e)),
+        }
+    }
+    (cases.len() as u64 + extra, bad)
 }
 
 // -------------------------------------------------------------------------------------------
@@ -696,6 +811,22 @@ pub fn run(ctx: &Ctx) -> Outcome {
 }
 
 pub fn replay(_ctx: &Ctx, r: &Value) -> i32 {
+    if r["kind"] == "flood" {
+        return match flood_case(r["lead_max_frame"].as_bool().unwrap(), r["oversized"].as_bool().unwrap(), r["haves"].as_u64().unwrap() as usize) {
+            Ok((n, m, None)) => {
+                println!("holds: {} frames decoded, at most {} bytes buffered", n, m);
+                0
+            }
+            Ok((_, _, Some((class, why)))) => {
+                println!("VIOLATION property=C06 replay=<this file>\n  class={} {}", class, why);
+                1
+            }
+            Err(e) => {
+                eprintln!("could not be carried out: {}", e);
+                2
+            }
+        };
+    }
     if r["kind"] == "unseamed" {
         println!("recorded outcome of the loopback replay: {}", r["text"].as_str().unwrap_or(""));
         println!("(a timing-dependent real-socket run; `./check C06` repeats all of them)");
